@@ -2,6 +2,7 @@ package props
 
 import (
 	"bytes"
+	"errors"
 	"fmt"
 	"testing"
 
@@ -157,6 +158,8 @@ func c03Fits(a *ref.AF) bool { return a.Content() <= a.Len }
 // c03Apply computes the expected outcome of op on model a (a copy is edited).
 // It returns the new logical field, whether an error is expected, and which
 // fixed field (if any) became present without a defined value.
+var errC03ArgWritten = errors.New("harness: the setter wrote to the caller's data slice or to the memory behind it")
+
 func c03Apply(a *ref.AF, o OpC03) (na *ref.AF, wantErr bool, undefined string, sizeChange bool) {
 	na = a.Clone()
 	switch o.Kind {
@@ -288,10 +291,19 @@ func c03Call(p *packet.Packet, o OpC03) error {
 		return af.SetOPCR(o.V)
 	case "splice":
 		return af.SetSpliceCountdown(byte(o.V))
-	case "tpd":
-		return af.SetTransportPrivateData(o.Data)
-	case "ext":
-		return af.SetAdaptationFieldExtension(o.Data)
+	case "tpd", "ext":
+		// the data sits in a caller buffer with live bytes behind it; the setter may read it and nothing else
+		in, spareIntact := withSpare(o.Data)
+		var err error
+		if o.Kind == "tpd" {
+			err = af.SetTransportPrivateData(in)
+		} else {
+			err = af.SetAdaptationFieldExtension(in)
+		}
+		if !bytes.Equal(in, o.Data) || !spareIntact() {
+			return errC03ArgWritten
+		}
+		return err
 	case "copyAF":
 		var sp packet.Packet
 		copy(sp[:], o.Src)
@@ -464,6 +476,9 @@ func checkC03(c CaseC03, x *hx.Ctx) *hx.Failure {
 		where := fmt.Sprintf("step %d %s after %v (af_len %d, content before %d)", i, o, hist[:i], m.AF.Len, m.AF.Content())
 		if err != nil && len(err.Error()) > 16 && err.Error()[:16] == "harness-observed" {
 			return hx.Failf("copyaf-mutates-source", "%s: %v", where, err)
+		}
+		if err == errC03ArgWritten {
+			return hx.Failf("setter-writes-caller-data", "%s: %v", where, err)
 		}
 		if wantErr {
 			nRefused++
